@@ -8,9 +8,9 @@ What is proved here, for the heap-effect semantics of `Impl.Effects`:
   that existed before the run is unchanged after it — for every initial heap, by induction over
   the program; `frame_by_class` restates it with the extractor's receiver classes; `frame_reachable`
   adds that the set of objects reachable from the inputs is the same before and after.
-* `sites_ok…` : decided over the site table GENERATED from the current source
-  (`Gen.Effects.sites`): no site of the property's API is classified `input` — refuted on the
-  current tree by exactly one site (F6, CRTF `region.meta.pop`), proved for all others.
+* `sites_ok` : decided over the site table GENERATED from the current source
+  (`Gen.Effects.sites`): no site of the property's API is classified `input` (F6, the CRTF
+  `region.meta.pop` site that refuted it, is fixed since 90d029a).
 * `unknown_sites_listed` / `unknown_sites_few` : the `unknown` sites that the dynamic run must
   validate are exactly `unknownSites` (generated), at most one site in twenty.
 * `history_independent` : a step function whose result depends only on its argument and on the
@@ -261,22 +261,21 @@ def isF6 (s : Site) : Bool :=
 argument of a public entry point. -/
 def sites_ok_full : Prop := ∀ s ∈ sites, inScope s = true → s.cls ≠ .input
 
-/-- refuted on the current tree by the F6 site, which is named. -/
-theorem sites_ok_full_refuted : ¬ sites_ok_full := by
-  intro hall
-  have hex : sites.any (fun s => inScope s && isF6 s && s.cls == .input) = true := by decide
-  obtain ⟨s, hs, hp⟩ := List.any_eq_true.mp hex
-  simp only [Bool.and_eq_true, beq_iff_eq] at hp
-  exact hall s hs hp.1.1 hp.2
-
-/-- every other site of the API is not `input`. -/
-theorem sites_ok_partial : ∀ s ∈ sites, inScope s = true → isF6 s = false → s.cls ≠ .input := by
-  have hb : sites.all (fun s => !inScope s || isF6 s || s.cls != .input) = true := by decide +kernel
-  intro s hs hsc hf hc
+/-- **sites_ok** — decided over the table generated from the current source: no site of the API
+writes through a receiver that is (reachable from) an argument of a public entry point.
+(Until `fix: 90d029a` this was refuted by the CRTF `_to_shape_list` site
+`include = region.meta.pop('include', True)` — finding F6; `isF6` names that site.  A regression
+makes this theorem fail to compile, and the dynamic net reports the mutated input.) -/
+theorem sites_ok : sites_ok_full := by
+  have hb : sites.all (fun s => !inScope s || s.cls != .input) = true := by decide +kernel
+  intro s hs hsc hc
   have := List.all_eq_true.mp hb s hs
-  simp [hsc, hf, hc] at this
+  simp [hsc, hc] at this
 
-example : sites.any (fun s => inScope s && !isF6 s && s.cls == .fresh) = true := by decide
+/-- the former F6 site is still in the table, now reading: it is no longer a mutating site at all. -/
+example : sites.any isF6 = false := by decide +kernel
+
+example : sites.any (fun s => inScope s && !isF6 s && s.cls == .fresh) = true := by decide +kernel
 
 /-- the `unknown` sites of the API: (file, function, operation, receiver).  These are NOT covered
 by a static class; the dynamic run sets a tracer on exactly these lines and checks that the
